@@ -54,23 +54,28 @@ fn crc64(data: &[u8]) -> u64 {
     crc
 }
 
-/// Rewrite a version-2 Vfs snapshot as the version-1 image of the same state (VfsState v1 has no
-/// `mount_id_mappings`): [magic u64][data_version u16][VfsState][crc64]. Only possible when no
-/// per-mount mapping is stored (a v1 writer could not have had any): the tail must be
-/// len = 256 followed by 256 `None` tags.
+/// Rewrite a Vfs snapshot as the version-1 image of the same state (VfsState v1 = options, root,
+/// next_super; v2 appends `mount_id_mappings`, a later version may append a one-byte `initialized`):
+/// [magic u64][data_version u16][VfsState][crc64]. Only possible when no per-mount mapping is stored
+/// (a v1 writer could not have had any): the appended part must be len = 256 followed by 256 `None` tags.
 fn to_v1(img: &[u8]) -> Option<Vec<u8>> {
     let n = img.len();
-    if n < 8 + 2 + 8 + 264 || u16::from_le_bytes([img[8], img[9]]) != 2 {
+    if n < 8 + 2 + 8 + 265 {
         return None;
     }
-    let tail = &img[n - 8 - 264..n - 8];
+    let extra = match u16::from_le_bytes([img[8], img[9]]) {
+        2 => 0usize,
+        3 => 1usize,
+        _ => return None,
+    };
+    let tail = &img[n - 8 - 264 - extra..n - 8 - extra];
     if u64::from_le_bytes(tail[..8].try_into().unwrap()) != 256 || tail[8..].iter().any(|b| *b != 0) {
         return None;
     }
     if crc64(&img[..n - 8]) != u64::from_le_bytes(img[n - 8..].try_into().unwrap()) {
         return None;
     }
-    let mut out = img[..n - 8 - 264].to_vec();
+    let mut out = img[..n - 8 - 264 - extra].to_vec();
     out[8] = 1;
     out[9] = 0;
     let c = crc64(&out);
